@@ -39,7 +39,11 @@ def one(out, w):
             if p.returncode != 0:
                 return name, "PATCH FAILED"
         elif w != "BASE":
-            for ed in MUT[w]["edits"]:
+            if MUT[w].get("patch"):
+                pp = subprocess.run(["patch", "-p1", "-d", scratch, "-i", os.path.join(VERIF, MUT[w]["patch"])], stdout=subprocess.PIPE, stderr=subprocess.STDOUT)
+                if pp.returncode != 0:
+                    return name, "PATCH FAILED"
+            for ed in MUT[w].get("edits", []):
                 p = os.path.join(scratch, ed["file"])
                 t = open(p).read()
                 if t.count(ed["old"]) != 1 and not (ed.get("all") and t.count(ed["old"]) > 1):
